@@ -396,6 +396,26 @@ def _nodes_including_closures(fn: ast.AST):
     yield from ast.walk(fn)
 
 
+def param_attr_aliases(ci: ClassInfo) -> Dict[str, Dict[str, Tuple[str, str]]]:
+    """method -> {parameter: (self, attribute)} for parameters that receive an attribute of self from a sibling method
+    (`self._get(self._loader_cache, tp, ...)`): inside the callee the parameter IS that attribute"""
+    out: Dict[str, Dict[str, Tuple[str, str]]] = {}
+    for fn in ci.methods.values():
+        for c in ast.walk(fn):
+            if not (isinstance(c, ast.Call) and isinstance(c.func, ast.Attribute) and isinstance(c.func.value, ast.Name)
+                    and c.func.value.id == "self" and c.func.attr in ci.methods):
+                continue
+            callee = ci.methods[c.func.attr]
+            ps = [a.arg for a in callee.args.posonlyargs + callee.args.args][1:]
+            for i, a in enumerate(c.args):
+                if i < len(ps) and isinstance(a, ast.Attribute) and isinstance(a.value, ast.Name) and a.value.id == "self":
+                    out.setdefault(c.func.attr, {})[ps[i]] = ("self", a.attr)
+            for kw in c.keywords:
+                if kw.arg and isinstance(kw.value, ast.Attribute) and isinstance(kw.value.value, ast.Name) and kw.value.value.id == "self":
+                    out.setdefault(c.func.attr, {})[kw.arg] = ("self", kw.value.attr)
+    return out
+
+
 def attr_aliases(fn: ast.AST) -> Dict[str, Tuple[str, str]]:
     """locals that are plain aliases of an attribute of self / cls: `call_cache = self._call_cache`"""
     out: Dict[str, Tuple[str, str]] = {}
